@@ -71,9 +71,10 @@ struct Template {
 fn gen_many(rng: &mut Rng, cfg: &ForeignCfg) -> Foreign {
     let mut enc = Encoder::new();
     let mut f = Foreign { msgs: vec![], chunks: vec![], choices: vec![], scs: vec![] };
-    let n = *rng.pick(&[1025usize, 1026, 1030, 1100, 2049, 2100, 4100]);
+    let n = if rng.chance(1, 20) { *rng.pick(&[65_537usize, 65_540]) } else { *rng.pick(&[1025usize, 1026, 1030, 1100, 2049, 2100, 4100]) };
     let distinct = rng.chance(2, 3);
     let stride = *rng.pick(&[1u32, 1, 3, 15]);
+    let stride = if n > 5000 { 1 } else { stride };
     let base = rng.range(2, 65599 - (n as u64) * (stride as u64)) as u32;
     let ids: Vec<u32> = if distinct { (0..n as u32).map(|i| base + i * stride).collect() } else { (0..rng.usize(1, 3) as u32).map(|i| base + i * stride).collect() };
     let mut clock: u64 = rng.below(1000);
